@@ -62,6 +62,17 @@ def main():
     if ne > 400:
         print("too large:", ne)
         return 1
+    # operands that were already moved far away or rescaled by a plan (C08, C09, C10) are not base inputs
+    from fractions import Fraction
+    for mp in (a, b):
+        for poly in mp:
+            for ring in poly:
+                for pt in ring:
+                    for v in pt:
+                        v = Fraction(v)
+                        if v != 0 and (abs(v) > 2 ** 40 or abs(v) < Fraction(1, 2 ** 40)):
+                            print("coordinates out of the base range")
+                            return 1
     fam = d.get("family") or "g3"
     if fam not in gen.FAMILIES:
         fam = "g3"
